@@ -29,6 +29,12 @@ for avail in [0, 1, 4, 5, 6, 8]:
     for chunk in ([1, 2, 5, 8] if avail >= 4 else [8]):
         H.append(dict(name="marshalling.ScalarUnmarshalFrom-avail%d-chunk%d" % (avail, chunk), pkg=MP, files=MF, entry="HarnessScalarUnmarshalFrom", mode="bv", params={"p0": avail, "p1": chunk}, validate=2, unwind=64,
                       functions=["marshalling.ScalarUnmarshalFrom", "io.ReadFull", "io.ReadAtLeast"], bound="stream of %d bytes delivered in chunks of at most %d" % (avail, chunk)))
+for xl, yl in [(32, 32), (31, 32), (32, 31), (1, 32), (32, 1), (0, 32), (16, 16), (30, 29), (0, 0)]:
+    H.append(dict(name="p256.MarshalBinary-x%d-y%d" % (xl, yl), pkg="./group/p256", files=["harness/C17/p256.go"], entry="HarnessP256Marshal", mode="int", params={"p0": xl, "p1": yl}, validate=3, unwind=80,
+                  stubs=["crypto/elliptic curve -> stub", "math/big.Int as mathematical integers; Bytes() has the length determined by the value's interval"],
+                  functions=["p256.(*curvePoint).MarshalBinary", "p256.(*curvePoint).MarshalSize"], bound="x of exactly %d bytes, y of exactly %d bytes, arbitrary content" % (xl, yl),
+                  tiers=(["quick", "thorough"] if (xl, yl) in ((32, 32), (31, 32), (32, 1), (0, 32)) else ["thorough"]),
+                  mutants=[dict(id="C03p1", file="group/p256/curve.go", old="\tcopy(ret[1+byteLen-len(x):], x)", new="\tcopy(ret[1:], x)")] if (xl, yl) == (31, 32) else []))
 H.append(dict(name="bn254.gfP.Unmarshal", pkg="./pairing/bn254", files=["harness/C03/bn254_unmarshal.go"], entry="HarnessBN254GfpUnmarshal", mode="bv", unwind=100, validate=8, globals=["p2"],
               functions=["bn254.(*gfP).Unmarshal"], bound="all 2^256 32-byte inputs",
               mutants=[dict(id="C03bn1", file="pairing/bn254/gfp.go", old="\tfor i := 3; i >= 0; i-- {\n\t\tif e[i] < p2[i] {", new="\tfor i := 3; i > 0; i-- {\n\t\tif e[i] < p2[i] {")]))
